@@ -645,6 +645,38 @@ where
             tr.fin_n = n;
             tr.fin_item = lastx;
         }
+        6 => {
+            // rfold: visits the remainder back to front
+            tr.final_count = it.len();
+            let (n, lastx) = it.rfold((0usize, None), |(n, _), t| {
+                let r = conv(t, None);
+                (n + 1, Some((r.0, r.1)))
+            });
+            tr.fin_n = n;
+            tr.fin_item = lastx;
+        }
+        7 => {
+            // step_by(2): every other item of the remainder; the last one visited is reported
+            tr.final_count = it.len();
+            let mut n = 0usize;
+            let mut lastx = None;
+            for t in it.step_by(2) {
+                n += 1;
+                let r = conv(t, None);
+                lastx = Some((r.0, r.1));
+            }
+            tr.fin_n = n;
+            tr.fin_item = lastx;
+        }
+        8 => {
+            tr.final_count = it.len();
+            let mut sk = it.skip(1);
+            tr.fin_item = sk.next().map(|t| {
+                let r = conv(t, None);
+                (r.0, r.1)
+            });
+            tr.fin_n = sk.count();
+        }
         _ => {
             tr.final_count = it.count();
         }
